@@ -119,8 +119,13 @@ class Corr:
     def __init__(self) -> None:
         self.items: list[tuple[str, Callable[[str], str | None], dict[str, Any]]] = []
 
-    def add(self, line: str, compare: Callable[[str], str | None], context: dict[str, Any]) -> None:
+    def add(self, line: str, compare: Callable[[str], str | None] | tuple, context: dict[str, Any]) -> None:
+        """`compare` is a callable or a picklable *spec* `(kind, *args)` (see `make_compare`), so that the lines
+        collected by worker processes can be sent back to the main process."""
         self.items.append((line, compare, context))
+
+    def extend(self, items) -> None:
+        self.items.extend(items)
 
     def flush(self, res: common.Result, on_mismatch: Callable[[dict[str, Any], str, str, str], bool]) -> None:
         """`on_mismatch(context, line, answer, why)` runs the failing-input search; True if it reported an oracle failure."""
@@ -131,6 +136,8 @@ class Corr:
         for (line, compare, ctx), ans in zip(self.items, answers):
             res.evaluations += 1
             res.count("driver:" + line.split(" ", 1)[0])
+            if isinstance(compare, tuple):
+                compare = make_compare(compare)
             why = compare(ans)
             if why is None:
                 res.traces_validated += 1
@@ -307,3 +314,76 @@ def split_compare(Jd, out_names, in_names, sizes):
         return None
 
     return cmp
+
+
+# --------------------------------------------------------------------------- surrogate discipline with name lists
+
+
+def sur_compare(ys, blocks, bound: Fraction):
+    """`ys`: the outputs of the discipline in requested order; `blocks[(n, m)]`: its Jacobian blocks (or None)."""
+
+    def cmp(ans: str) -> str | None:
+        toks = ans.split("|")
+        if not toks or not toks[0].startswith("y="):
+            return f"model answered {ans!r}"
+        want = pvec(toks[0][2:])
+        got = [v for y in ys for v in np.asarray(y, dtype=float).ravel()]
+        if not frac_close(want, got, bound):
+            return f"execute: model {[float(v) for v in want]} vs discipline {got}"
+        if blocks is not None:
+            mb = {}
+            for tok in toks[1:]:
+                if "=" not in tok:
+                    return f"model answered {ans!r}"
+                k, v = tok.split("=", 1)
+                mb[k] = pmat(v)
+            for (n, m), blk in blocks.items():
+                w = mb.get(f"{n},{m}")
+                g = np.atleast_2d(np.asarray(blk, dtype=float))
+                if w is None or len(w) != g.shape[0] or not frac_close(flat(w), g.ravel(), bound):
+                    return f"linearize block ({n},{m}): model {w} vs discipline {g.tolist()}"
+        return None
+
+    return cmp
+
+
+# --------------------------------------------------------------------------- sessions (one object, several trainings)
+
+
+def sess_compare(expected, bound: Fraction):
+    """`expected`: one entry per operation: None after a training, (p, J or None) after a query."""
+
+    def cmp(ans: str) -> str | None:
+        toks = ans.split("|")
+        if len(toks) != len(expected):
+            return f"model answered {ans[:200]!r}"
+        n_learn = 0
+        for k, (tok, exp) in enumerate(zip(toks, expected)):
+            if exp is None:
+                n_learn += 1
+                if tok != "trained":
+                    return f"operation {k}: model answered {tok[:100]!r} after a training"
+                continue
+            p, J = exp
+            parts = dict(t.split("=", 1) for t in tok.split("~") if "=" in t)
+            if "p" not in parts or "J" not in parts:
+                return f"operation {k}: model answered {tok[:100]!r}"
+            if not frac_close(pvec(parts["p"]), p, bound):
+                return f"predict after training #{n_learn}: model {[float(v) for v in pvec(parts['p'])]} vs code {np.asarray(p).tolist()}"
+            if J is not None and not frac_close(flat(pmat(parts["J"])), np.asarray(J).ravel(), bound):
+                return f"predict_jacobian after training #{n_learn}: model {[[float(v) for v in r] for r in pmat(parts['J'])]} vs code {np.asarray(J).tolist()}"
+        return None
+
+    return cmp
+
+
+def make_compare(spec: tuple):
+    kind, *args = spec
+    return {
+        "reg": reg_compare,
+        "rbf": rbf_compare,
+        "split": split_compare,
+        "tr": tr_compare,
+        "sur": sur_compare,
+        "sess": sess_compare,
+    }[kind](*args)
